@@ -561,6 +561,11 @@ def build(tier, seed):
     for spec in structs:
         for n_ids in range(1, max_ids + 1):
             hc.append(hier.make_case(spec, n_ids, seed))
+    if tier == 'thorough':
+        # 4-dimensional bottom level (two-parameter error model)
+        for spec in hier.structures(4, hier.KINDS6):
+            for n_ids in (1, 3):
+                hc.append(hier.make_case(spec, n_ids, seed, err='CM'))
     depth = 2 if tier == 'quick' else 5
     bases = list(POP_BASES) if tier == 'thorough' else [
         'G2', 'H1', 'covG2', 'covP1', 'comp', 'comp2', 'nested']
